@@ -102,7 +102,8 @@ MUTANTS = [
 
     ('C11', 'supp/nast.py', r"declared_at = self\.top\.find_id_loc\(name, start\)\n            self\.flow\.add_name\(ImportedName\(name, loc, declared_at, iname, None,", "declared_at = start\n            self.flow.add_name(ImportedName(name, loc, declared_at, iname, None,", 'C11-R3'),
     # ---- C12
-    ('C12', 'supp/assistant.py', r"sorted\(set\(unmark\(n\) if marked\(n\) else n for n in names\)\)", "sorted(names)", 'C12-R3'),
+    ('C12', 'supp/assistant.py', r"proposals = set\(unmark\(n\) if marked\(n\) else n for n in names\)", "proposals = set(names)", 'C12-R3'),
+    ('C12', 'supp/assistant.py', r"    proposals\.discard\(''\)\n", "", 'C12-R2'),
     ('C12', 'supp/assistant.py', r"w\*", "w+", 'C12-R1'),
     ('C12', 'supp/assistant.py', r"            return prefix, list_packages\(project, head, filename\)", "            return tail, list_packages(project, head, filename)", 'C12-R1'),
     ('C12', 'supp/assistant.py', r"    return prefix, sorted\(set\(", "    return prefix, list(set(", 'C12-R2'),
